@@ -320,11 +320,18 @@ def make_target(spec):
     elif kind == "sample_t":
         _, variant, n, k, ptype = spec
         mk = _strong(variant)
-        pop = {"tuple": tuple(range(n)), "str": "abcdefghijklmnopqrstuvwxyz"[:n], "range": range(n)}[ptype]
+        pop = {"tuple": tuple(range(n)), "str": "abcdefghijklmnopqrstuvwxyz"[:n], "range": range(n),
+               # elements that are EQUAL (and hash alike) yet distinguishable: a selection is one of positions, not of values
+               "eqval": [1, 1.0, 2, 2.0, True][:n]}[ptype]
         tg.fam = "StrongRandom.sample"
         tg.name = "StrongRandom[%s].sample(%r, %d)" % (variant, pop, k)
-        tg.run = lambda t: tuple(mk(t).sample(pop, k))
-        tg.domain = list(itertools.permutations(list(pop), k))
+        if ptype == "eqval":
+            desc = lambda x: "%s:%r" % (type(x).__name__, x)                        # noqa: E731
+            tg.run = lambda t: tuple(desc(x) for x in mk(t).sample(pop, k))
+            tg.domain = list(itertools.permutations([desc(x) for x in pop], k))
+        else:
+            tg.run = lambda t: tuple(mk(t).sample(pop, k))
+            tg.domain = list(itertools.permutations(list(pop), k))
         tg.base_calls = k
         if variant == "bit":
             tg.tapecls = BitTape
